@@ -257,8 +257,9 @@ Definition seg_here (vb : bytes) (sv : sval) : Prop :=
 Definition seg_of (L : bytes) (sv : sval) : Prop :=
   exists pre vb suf, L = pre ++ vb ++ suf /\ seg_here vb sv.
 
-Definition from_input (L : bytes) (e : entries) : Prop :=
-  forall i sv, nth_error e i = Some (Some sv) -> seg_of L sv.
+(* every filled entry was read from the input, or is the (stale) value the map held before at that index *)
+Definition from_input (L : bytes) (e0 e : entries) : Prop :=
+  forall i sv, nth_error e i = Some (Some sv) -> seg_of L sv \/ nth_error e0 i = Some (Some sv).
 
 Definition suffix_of (L l : bytes) : Prop := exists d, L = d ++ l.
 
@@ -300,14 +301,14 @@ Proof.
     destruct j as [|j]; [reflexivity|]. cbn [nth_error Nat.eqb]. apply (IH _ _ _ E).
 Qed.
 
-Lemma store_from_input L e idx o e' vb pre suf :
-  from_input L e -> store e idx o = Some e' -> L = pre ++ vb ++ suf ->
-  match o with Some sv => seg_here vb sv | None => True end -> from_input L e'.
+Lemma store_from_input L e0 e idx o e' vb pre suf :
+  from_input L e0 e -> store e idx o = Some e' -> L = pre ++ vb ++ suf ->
+  match o with Some sv => seg_here vb sv | None => True end -> from_input L e0 e'.
 Proof.
   intros He Hst HL Ho. destruct o as [sv|]; cbn [store] in Hst; [|inversion Hst; subst; exact He].
   intros j sv' Hj. rewrite (set_nth_nth_error _ _ _ _ Hst) in Hj.
   destruct (Nat.eqb j (N.to_nat idx)); [|apply (He j sv' Hj)].
-  inversion Hj; subst sv'. exists pre, vb, suf. split; [exact HL|exact Ho].
+  inversion Hj; subst sv'. left. exists pre, vb, suf. split; [exact HL|exact Ho].
 Qed.
 
 Lemma sm_skip_rest_suffix : forall f l u r, sm_skip_rest f l = Ok u r -> exists p, l = p ++ r.
@@ -320,9 +321,9 @@ Proof.
     exists (p ++ p2). rewrite <- app_assoc. reflexivity.
 Qed.
 
-Lemma sm_list_faithful tbl L : small L -> forall f fk mk base e l x r,
-  sm_list tbl f fk mk base e l = Ok x r -> from_input L e -> suffix_of L l ->
-  from_input L (snd x) /\ suffix_of L r.
+Lemma sm_list_faithful tbl L e0 : small L -> forall f fk mk base e l x r,
+  sm_list tbl f fk mk base e l = Ok x r -> from_input L e0 e -> suffix_of L l ->
+  from_input L e0 (snd x) /\ suffix_of L r.
 Proof.
   intros HL. induction f as [|f IH]; intros fk mk base e l x r H He Hsuf; [discriminate|].
   cbn [sm_list] in H. destruct l as [|c l']; [discriminate|].
@@ -333,7 +334,7 @@ Proof.
   destruct (read_value _ (c :: l')) as [o rest| | |] eqn:Er; try discriminate.
   apply read_value_spec in Er; [|eapply suffix_small; eassumption]. destruct Er as (vb & El & Ho).
   destruct (store e idx o) as [e'|] eqn:Es; [|discriminate].
-  assert (He' : from_input L e')
+  assert (He' : from_input L e0 e')
     by (destruct Hsuf as (d & HLd); rewrite El in HLd; eapply store_from_input; eassumption).
   assert (Hsr : suffix_of L rest)
     by (destruct Hsuf as (d & HLd); rewrite El in HLd; exists (d ++ vb); rewrite <- app_assoc; exact HLd).
@@ -344,8 +345,8 @@ Proof.
     eapply suffix_app; exact Hsr.
 Qed.
 
-Lemma sm_loop_faithful tbl L : small L -> forall f st l e r,
-  sm_loop tbl f st l = Ok e r -> from_input L (s_ents st) -> suffix_of L l -> from_input L e.
+Lemma sm_loop_faithful tbl L e0 : small L -> forall f st l e r,
+  sm_loop tbl f st l = Ok e r -> from_input L e0 (s_ents st) -> suffix_of L l -> from_input L e0 e.
 Proof.
   intros HL. induction f as [|f IH]; intros st l e r H He Hsuf; [discriminate|].
   cbn [sm_loop] in H. destruct l as [|c l']; [discriminate|].
@@ -362,7 +363,7 @@ Proof.
             match skip_c rest with
             | Ok _ rest' => sm_loop tbl f st' rest'
             | Reject => Reject | Fault => Fault | OutOfFuel => OutOfFuel
-            end = Ok e r -> from_input L e).
+            end = Ok e r -> from_input L e0 e).
   { intros st' Hst' H'. destruct (skip_c rest) as [u rest'| | |] eqn:Ek; try discriminate.
     apply skip_c_suffix in Ek. destruct Ek as (p & Ep). rewrite Ep in Hsr.
     eapply IH; [exact H'|rewrite Hst'; exact He|eapply suffix_app; exact Hsr]. }
@@ -391,17 +392,25 @@ Proof.
   destruct (c0 =? ch_lbr); [|discriminate].
   destruct rest as [|c1 rest1]; [discriminate|]. destruct (c1 =? ch_l).
   - destruct (sm_list tbl _ pos k base (s_ents st) rest1) as [[fk' e'] rest'| | |] eqn:El; try discriminate.
-    destruct (sm_list_faithful tbl L HL _ _ _ _ _ _ _ _ El He (suffix_cons _ _ _ Hsr)) as [He' Hs'].
+    destruct (sm_list_faithful tbl L e0 HL _ _ _ _ _ _ _ _ El He (suffix_cons _ _ _ Hsr)) as [He' Hs'].
     eapply IH; [exact H|exact He'|exact Hs'].
   - (refine (Hskip _ _ H); reflexivity).
+Qed.
+
+(* destination independence: reading INTO a map that already holds values leaves every entry either
+   read from the input (and denoting its segment) or exactly the value it held before at that index *)
+Theorem static_map_faithful_into tbl e0 l e r : small l -> sm_read_into tbl e0 l = Ok e r ->
+  forall i sv, nth_error e i = Some (Some sv) -> seg_of l sv \/ nth_error e0 i = Some (Some sv).
+Proof.
+  intros Hs H. unfold sm_read_into in H. destruct l as [|c l']; [discriminate|].
+  destruct (c =? ch_d); [|discriminate].
+  eapply (sm_loop_faithful tbl (c :: l') e0 Hs); [exact H| |exists [c]; reflexivity].
+  intros i sv Hi. cbn [init_st s_ents] in Hi. right. exact Hi.
 Qed.
 
 Theorem static_map_faithful tbl l e r : small l -> sm_read tbl l = Ok e r ->
   forall i sv, nth_error e i = Some (Some sv) -> seg_of l sv.
 Proof.
-  intros Hs H. unfold sm_read, sm_read_into in H. destruct l as [|c l']; [discriminate|].
-  destruct (c =? ch_d); [|discriminate].
-  eapply (sm_loop_faithful tbl (c :: l') Hs); [exact H| |exists [c]; reflexivity].
-  intros i sv Hi. cbn [init_st s_ents] in Hi. unfold empty_entries in Hi.
-  apply nth_error_In in Hi. apply repeat_spec in Hi. discriminate.
+  intros Hs H i sv Hi. destruct (static_map_faithful_into tbl (empty_entries tbl) l e r Hs H i sv Hi) as [A|B]; [exact A|].
+  unfold empty_entries in B. apply nth_error_In in B. apply repeat_spec in B. discriminate.
 Qed.
